@@ -57,7 +57,7 @@ def run(prop, spec, run_):
         fam_cli.run_hist(run_, 10 if q else 120, thorough=not q)
     elif prop == "C11":
         import fam_cli
-        fam_cli.run_asm_matrix(run_, quick=(tier == "quick"), sub_every=6 if tier == "quick" else 3)
+        fam_cli.run_asm_matrix(run_, quick=(tier == "quick"), sub_every=6 if tier == "quick" else 3, props=("C11",))
     elif prop == "C16":
         import fam_cli
         fam_cli.run_util(run_, 80 if tier == "quick" else 1200)
